@@ -440,7 +440,7 @@ func checkC05(r *fw.Run) {
 		return
 	}
 	rng := r.Rng("progs")
-	n := r.Pick(1500, 40000)
+	n := r.Pick(1500, 15000)
 	feat := map[string]int{}
 	var progs []*Prog
 	for i := 0; i < n; i++ {
